@@ -136,6 +136,12 @@ def run(ctx):
             viol.append(v)
         if len(samples) < 3 and st['guesses'] > 10:
             samples.append({'omen': om, 'stats': st})
+    # the memo table across processes: a session quit inside a level and resumed by a fresh process (cold table) on a ruleset whose
+    # levels are not listed in numeric order - every level comes out in full, whatever the table held
+    from props import C15 as _c15
+    v_un, r_un = _c15.unaligned_levels_history('C10')
+    viol += v_un
+    cases += r_un
     disagreements = []
     if ctx.driver_ok:
         out = common.run_driver(ops)
@@ -223,6 +229,10 @@ def replay(ctx, payload):
     w = payload.get('violation', {}).get('witness')
     if not w:
         return []
+    if w.get('unaligned_levels_history'):
+        from props import C15 as _c15
+        common.use_impl()
+        return _c15.unaligned_levels_history('C10')[0]
     if w.get('trained_reference'):
         return trained_reference_case()[0]
     if w.get('retrained_passwords'):
